@@ -319,7 +319,13 @@ func resolveBatch(ctx context.Context, sources []interface{}, typ Type, selectio
 func resolveScalarBatch(sources []interface{}, typ *Scalar, destinations []*outputNode) error {
 	for i, source := range sources {
 		if typ.Unwrapper == nil {
-			destinations[i].Fill(unwrap(source))
+			res := unwrap(source)
+			if b, ok := res.([]byte); ok && b == nil {
+				// encoding/json writes a nil []byte as null, but a non-pointer
+				// []byte is advertised as a non-null "bytes" scalar.
+				res = []byte{}
+			}
+			destinations[i].Fill(res)
 			continue
 		}
 		res, err := typ.Unwrapper(source)
